@@ -2,11 +2,17 @@ package harness
 
 import (
 	"testing"
+	"time"
+
+	"verifharness/peer"
 
 	"verifharness/vh"
 )
 
-func TestMain(m *testing.M) { vh.Main(m) }
+func TestMain(m *testing.M) {
+	vh.OnMargin = func(f int) { peer.IdleAfterBind = time.Duration(f) * 250 * time.Millisecond }
+	vh.Main(m)
+}
 
 // TestReplay runs the single case file named by VERIF_REPLAY, without rapid.
 func TestReplay(t *testing.T) { vh.Replay(t) }
